@@ -73,7 +73,7 @@ REQUIRED = dict(
     monitors=[M_X_SUB, M_X_NODE, M_X_FMT, M_X_GRID, M_X_NAME, M_X_UNIT, M_C_NODE, M_C_FMT, M_C_GRID, M_C_NAME, M_K_NODE, M_K_FMT,
               M_K_GRID, M_K_NAME, M_H_ONCE, M_H_PATH, M_H_VAL, M_H_INTERP, M_HK_INTERP, M_CIA_FIRST],
     classes=['xsec:pickle', 'xsec:hdf5', 'xsec:exotransmit', 'unit:Pa', 'unit:bar', 'unit:mbar', 'unit:Ba',
-             'unit:cds-only', 'cia:pickle', 'cia:hitran', 'hitran:per-temperature-ranges', 'hitran:negative-floored', 'hitran:whole-block-negative-below-an-interpolated-temperature', 'hitran:two-ranges-a-hair-apart',
+             'unit:cds-only', 'cia:pickle', 'cia:hitran', 'hitran:per-temperature-ranges', 'hitran:negative-floored', 'hitran:whole-block-negative-below-an-interpolated-temperature', 'hitran:two-ranges-a-hair-apart', 'history:hundreds-of-temperatures-then-earlier-ones-again',
              'hitran:ranges-share-a-wavenumber', 'query:work-array-refilled-in-place',
              'ktab:pickle', 'ktab:hdf5', 'name:isotopologue', 'name:suffix', 'query:node', 'query:interior',
              'query:outside', 'query:wngrid', 'interp:linear', 'interp:exp', 'hist:xsec', 'hist:cia', 'hist:ktab',
@@ -646,6 +646,14 @@ def wl_cia(ctx, rng):
         for j in range(1, len(T) - 1):       # a fraction of a kelvin above an interior node
             qs.append(('interior', float(T[j]) + float(rng.uniform(0.05, 0.9)) * min(1.0, 0.5 * float(T[j + 1] - T[j]))))
         qs += [('outside', float(T[0] * rng.uniform(0.2, 0.95))), ('outside', float(T[-1] * rng.uniform(1.05, 3.0)))]
+        if ctx.case['index'] % 4 == 3:
+            # a long history on one loaded table (it serves every layer of every evaluation of a retrieval): hundreds of
+            # distinct temperatures, then temperatures it has served long before
+            first = list(qs)
+            nt = int(rng.integers(150, 300)) if ctx.tier == 'quick' else int(rng.integers(400, 2000))
+            qs += [('interior', float(rng.uniform(T[0], T[-1]))) for _ in range(nt)]
+            qs += [first[int(k)] for k in rng.integers(0, len(first), 12)]
+            ctx.observe('history:hundreds-of-temperatures-then-earlier-ones-again')
         offgrid = np.sort(rng.uniform(wn[0] * 0.8, wn[-1] * 1.2, int(rng.integers(2, 12))))
         if exp.get('shared_wavenumber'):
             ctx.observe('hitran:ranges-share-a-wavenumber')
